@@ -20,6 +20,7 @@ ROUND_TEXT = {
     11: "as round 10",
     12: "as round 10",
     13: "as round 10",
+    14: "as round 10; changes whose effect only shows after printing a library object were declared unacceptable too",
 }
 
 
